@@ -5,6 +5,11 @@ sys.set_int_max_str_digits(0)
 from fractions import Fraction
 
 PROP = "C11"
+# generated twin (DESIGN §11.3): em_update_matrix regenerated from the repository's current source vs EM.emUpdateIdx
+# inside Lean: 2 tokens x {1, 2} windows, two-row CSR matrices over every column subset, both targets, every window
+# up to length 2 with every kernel over {0, 1, 1/2}; every 5th case also with a truncated prior / posterior / kernel /
+# indptr array (both sides must fail together)
+TWIN_CHECKS = [{"op": "twin.em_exhaustive"}]
 RULE = ("token / timed / multiset / n-gram co-occurrence vectorizers on random corpora over 3-5 letter alphabets "
         "(1-4 sequences of length 0-10, timed: increasing quarter-integer time stamps, multiset: multisets of size "
         "1-3) x n_iter in {0..3} x epsilon in {0, 0.05, 0.13, 0.2, 0.3, 0.5} x n_threads in {1,2,3} x window radii "
